@@ -414,10 +414,10 @@ def strata(tier, seed):
     yield Stratum('tt-svd', arrs, 'svd', size=len(arrs), chunk=8,
                   bounds={'d': [2, 4], 'magnitudes': [1e-6, 1, 1e6]})
     ms = _matrices(tier, seed)
-    yield Stratum('matrix-factorisations', ms, 'matrix', size=len(ms), chunk=4,
+    yield Stratum('matrix-factorisations', ms, 'matrix', seq=True, size=len(ms), chunk=4,
                   bounds={'m,n': '1..%d' % (4 if tier == 'quick' else 5), 'give_to': ['m', 'l', 'r'], 'rel': [0, 1]})
     fm = [dict(shape=sh, ranks=rk, seed=seed, nonneg=nn) for sh, rk in (([4, 5], [1, 3, 1]), ([3, 4, 3], [1, 2, 3, 1]), ([2, 3, 2, 3], [1, 2, 3, 2, 1]), ([5, 1, 4], [1, 2, 2, 1]), ([6, 6], [1, 2, 1])) for nn in (False, True)]
-    yield Stratum('argument forms', fm, 'forms', size=len(fm), chunk=1, bounds={'forms': ['int64', 'int32', 'float32', 'fortran', 'strided', 'numpy scalars']})
+    yield Stratum('argument forms', fm, 'forms', seq=True, size=len(fm), chunk=1, bounds={'forms': ['int64', 'int32', 'float32', 'fortran', 'strided', 'numpy scalars']})
     qm = _qm(tier, seed)
-    yield Stratum('qtt-matrix-interleaving', qm, 'qttmatrix', size=len(qm), chunk=16,
+    yield Stratum('qtt-matrix-interleaving', qm, 'qttmatrix', seq=True, size=len(qm), chunk=16,
                   bounds={'q': [1, 2, 3], 'unit matrices': 'all 4^q'})
